@@ -141,6 +141,16 @@ func genText(g *genCtx) {
 				}
 			}
 		}
+		// texts whose encoded form ends in an octet 0x00 (or begins with one): content is binary, nothing is padding
+		for _, pc := range []struct {
+			proto, coding string
+			n             int
+		}{{"cmpp", "ascii", 0}, {"cmpp", "ucs2", 8}, {"cmpp", "ucs2", 9}, {"cmpp", "gb", 15},
+			{"smpp", "gsm7u", 0}, {"smpp", "ascii", 1}, {"smpp", "latin1", 3}, {"smpp", "ucs2", 8}} {
+			for _, txt := range []string{"mail me @", "@", "@@", "x@", "\u8bf7\u6253\u5f00", "x\u0100", "\u4e00", "\u3000 \u3000", "a\x00", "\x00", "\x00a", "ab\x00\x00"} {
+				emit(Case{"k": "content", "proto": pc.proto, "n": pc.n, "coding": pc.coding, "text": scalars(txt)})
+			}
+		}
 		for i := 0; i < 300; i++ {
 			proto := pickS(r, "cmpp", "smpp")
 			coding := pickS(r, "ascii", "latin1", "ucs2", "gb", "gsm7u")
